@@ -45,7 +45,7 @@ func vIsTrivialSound(depth int) {
 
 func VerifC11_IsTrivialDepth0()  { vIsTrivialSound(0) }
 func VerifC11_IsTrivialDepth1()  { vIsTrivialSound(1) }
-func VerifC11T_IsTrivialDepth2() { vIsTrivialSound(2) }
+func VerifC11T_IsTrivialDepth2() { vNoMul = true; vIsTrivialSound(2) }
 
 // the registry stores the flags computed by isTrivial / isRelation for the real harness types
 func VerifC11_RegistryFlags() {
@@ -55,6 +55,46 @@ func VerifC11_RegistryFlags() {
 	vcheck("ptr-component-not-trivial", !r.IsTrivial[W.id[cP].id])
 	vcheck("relations", r.IsRelation[W.id[cR1].id] && r.IsRelation[W.id[cR2].id] && !r.IsRelation[W.id[cA].id])
 	_ = unsafe.Pointer(nil)
+	vreach("end")
+}
+
+// concrete component types whose pointer-bearing parts sit in unexported, embedded, blank,
+// nested and array fields: never trivial; their pointer-free twins: trivial
+type vHiddenPtr struct {
+	A uint32
+	p *uint32
+}
+type vHiddenSlice struct {
+	_ [0]func()
+	b []byte
+}
+type vEmbedsPtr struct {
+	vHiddenPtr
+	N uint64
+}
+type vArrayOfHidden struct{ arr [2]vHiddenPtr }
+type vHiddenPlain struct {
+	A uint32
+	b [3]uint16
+	c struct{ x, y int8 }
+}
+type vHiddenString struct{ s string }
+type vHiddenMap struct{ m map[int]int }
+type vHiddenIface struct{ i any }
+
+func VerifC11_IsTrivialConcreteTypes() {
+	vcheck("unexported-pointer", !isTrivial(reflect.TypeFor[vHiddenPtr]()))
+	vcheck("unexported-slice-after-blank-field", !isTrivial(reflect.TypeFor[vHiddenSlice]()))
+	vcheck("embedded", !isTrivial(reflect.TypeFor[vEmbedsPtr]()))
+	vcheck("array-of-structs", !isTrivial(reflect.TypeFor[vArrayOfHidden]()))
+	vcheck("string", !isTrivial(reflect.TypeFor[vHiddenString]()))
+	vcheck("map", !isTrivial(reflect.TypeFor[vHiddenMap]()))
+	vcheck("interface", !isTrivial(reflect.TypeFor[vHiddenIface]()))
+	vcheck("pointer-free-with-unexported-fields", isTrivial(reflect.TypeFor[vHiddenPlain]()))
+	// and the registry carries the flag into the storage
+	w := NewWorld(1)
+	id := ComponentID[vHiddenPtr](w)
+	vcheck("registry-flag", !w.storage.registry.IsTrivial[id.id])
 	vreach("end")
 }
 
